@@ -3431,7 +3431,8 @@ impl<'a> Parser<'a> {
                     // The lexer is now positioned after ${, so get the next token
                     self.current = self.lexer.next_token();
                 }
-                _ => break,
+                // The input ended inside the template (the lexer reports an invalid token)
+                _ => return Err(self.error("Unterminated template literal")),
             }
         }
 
